@@ -561,6 +561,15 @@ inline const std::string& P8() {
 
 inline std::string val_of(const std::string& key, int gen = 0) {
     // value bytes encode key and generation; length differs by generation so that torn length/body pairs show
+    if (gen >= 10) {
+        // generations 10.. have exactly the length of generation 0 and differ from it in every byte but the first and third:
+        // an overwrite that re-uses the stored buffer in place is only possible (and only visible) with equal lengths
+        std::string v = "v";
+        v += char('A' + (gen - 10));
+        v += ":";
+        for (char c : hex(key)) v += char(c ^ 0x40);
+        return v;
+    }
     std::string v = "v" + std::to_string(gen) + ":" + hex(key);
     for (int i = 0; i < gen; ++i) v += "+";
     return v;
@@ -644,6 +653,27 @@ inline std::vector<Shape> all_shapes() {
         v.push_back(s);
     }
     {
+        // two single-key borders 1 | 1 under an interior root: two removes empty both siblings at once
+        Shape s;
+        s.name = "I2_1_1";
+        s.inserts = seq(1, 16);
+        s.removes = seq(1, 7);
+        for (auto& k : seq(10, 16)) s.removes.push_back(k);
+        s.pal = {{"only", "08"}, {"in", "08"}, {"in2", "09"}, {"new", "085"}, {"new2", "10"}, {"edge", "09"}};
+        v.push_back(s);
+    }
+    {
+        // three single-key borders 1 | 1 | 1
+        Shape s;
+        s.name = "I3_1_1_1";
+        s.inserts = seq(1, 24);
+        s.removes = seq(1, 7);
+        for (auto& k : seq(10, 16)) s.removes.push_back(k);
+        for (auto& k : seq(18, 24)) s.removes.push_back(k);
+        s.pal = {{"only", "09"}, {"in", "08"}, {"in2", "17"}, {"new", "085"}, {"new2", "10"}, {"edge", "17"}};
+        v.push_back(s);
+    }
+    {
         // 8 | 15 : second border full, next insert splits a non-first child
         Shape s;
         s.name = "I2_8_15";
@@ -693,6 +723,17 @@ inline std::vector<Shape> all_shapes() {
         for (int i = 1; i <= 16; ++i) s.inserts.push_back(P8() + k2(i));
         for (int i = 1; i <= 7; ++i) s.removes.push_back(P8() + k2(i));
         s.pal = {{"in", "10"}, {"only", P8() + "08"}, {"inL", P8() + "09"}, {"inL2", P8() + "10"}, {"newL", P8() + "085"}, {"new", "20"}};
+        v.push_back(s);
+    }
+    {
+        // layer 1 root is an interior node with two single-key borders 1 | 1
+        Shape s;
+        s.name = "L1I2_1_1";
+        s.inserts = {"10"};
+        for (int i = 1; i <= 16; ++i) s.inserts.push_back(P8() + k2(i));
+        for (int i = 1; i <= 7; ++i) s.removes.push_back(P8() + k2(i));
+        for (int i = 10; i <= 16; ++i) s.removes.push_back(P8() + k2(i));
+        s.pal = {{"in", "10"}, {"only", P8() + "08"}, {"inL", P8() + "09"}, {"newL", P8() + "085"}, {"new", "20"}};
         v.push_back(s);
     }
     {
